@@ -57,6 +57,8 @@ pub struct History {
     pub reqs: Vec<Req>,
     /// GOAWAY is sent before request index `goaway_at` (== reqs.len(): after all); None: never
     pub goaway_at: Option<usize>,
+    /// the server application itself calls shutdown(n) once it has been handed `at` requests: (at, n)
+    pub own_shutdown: Option<(usize, usize)>,
 }
 
 #[derive(Default, Debug, Clone)]
@@ -165,7 +167,17 @@ async fn server_app(net: Net, h: History, o: Shared<Obs>, sigs: Vec<Signal>, end
             return;
         }
     };
+    let mut shut = false;
     loop {
+        if let Some((at, n)) = h.own_shutdown {
+            if !shut && o.borrow().accepted as usize >= at {
+                shut = true;
+                if let Err(e) = conn.shutdown(n).await {
+                    o.borrow_mut().accept_end = Some(Err(conn_info(&e)));
+                    break;
+                }
+            }
+        }
         match conn.accept().await {
             Ok(Some(r)) => {
                 let id = r.frame_stream.id().into_inner();
@@ -192,7 +204,7 @@ async fn server_app(net: Net, h: History, o: Shared<Obs>, sigs: Vec<Signal>, end
 }
 
 fn hist_json(h: &History) -> Value {
-    json!({"reqs": h.reqs.iter().map(|r| format!("{:?}{}", r.ending, if r.late { "+late" } else { "" })).collect::<Vec<_>>(), "goaway_at": h.goaway_at})
+    json!({"reqs": h.reqs.iter().map(|r| format!("{:?}{}", r.ending, if r.late { "+late" } else { "" })).collect::<Vec<_>>(), "goaway_at": h.goaway_at, "own_shutdown": h.own_shutdown.map(|(a, n)| vec![a, n])})
 }
 
 pub fn run_history(h: &History, style: Style, sched: &[u16], credit: u64, ctx: &mut Ctx) -> Verdict {
@@ -282,8 +294,8 @@ pub fn run_history(h: &History, style: Style, sched: &[u16], credit: u64, ctx: &
             }
         }
         (false, _) => {
-            if got_none {
-                return fail("accept() returned None although the peer never signalled shutdown".into());
+            if got_none && h.own_shutdown.is_none() {
+                return fail("accept() returned None although nobody signalled shutdown".into());
             }
             ctx.class("no_goaway_pending");
         }
@@ -299,6 +311,12 @@ pub fn run_history(h: &History, style: Style, sched: &[u16], credit: u64, ctx: &
             Ending::Split => ctx.class("ending_split_halves"),
             Ending::Never => ctx.class("ending_never"),
             Ending::Normal => ctx.class("ending_normal"),
+        }
+    }
+    if let Some((at, n)) = h.own_shutdown {
+        ctx.class("own_shutdown");
+        if n >= 1 && obs.accepted as usize > at {
+            ctx.class("request_handed_out_inside_the_grace_interval");
         }
     }
     let nonnormal = h.reqs.iter().any(|r| !matches!(r.ending, Ending::Normal | Ending::Never));
@@ -330,16 +348,23 @@ fn exhaustive(ctx: &mut Ctx, shard: usize, nshards: usize) -> Verdict {
                 if idx % nshards != shard {
                     continue;
                 }
-                let h = History { reqs: reqs.clone(), goaway_at: g };
+                let h = History { reqs: reqs.clone(), goaway_at: g, own_shutdown: None };
                 run_history(&h, Style::Eager, &[], UNLIMITED, ctx)?;
                 let cells = prf_cells(idx as u64, 120);
                 run_history(&h, Style::Random, &cells, UNLIMITED, ctx)?;
                 run_history(&h, Style::Random, &cells, 2, ctx)?;
+                // the server's own graceful shutdown in the same history: after 0..n requests, allowing 0..2 more
+                for at in 0..=n {
+                    for more in 0..=2usize {
+                        let h = History { reqs: reqs.clone(), goaway_at: g, own_shutdown: Some((at, more)) };
+                        run_history(&h, if (at + more) % 2 == 0 { Style::Eager } else { Style::Random }, &cells, UNLIMITED, ctx)?;
+                    }
+                }
             }
         }
     }
     if shard == 0 {
-        ctx.subspace("all histories of <= 3 requests x 12 (ending, immediate/late) options x GOAWAY position (incl. none) x 2 schedules, the random one also with 2 bytes of send credit", idx as u64 * 3);
+        ctx.subspace("all histories of <= 3 requests x 12 (ending, immediate/late) options x GOAWAY position (incl. none) x (2 schedules, the random one also with 2 bytes of send credit; the server's own shutdown(0..2) after 0..n requests)", idx as u64 * 3);
     }
     Ok(())
 }
@@ -363,7 +388,8 @@ fn run_tape(tape: &[u16], ctx: &mut Ctx) -> Verdict {
         _ => t.int(1, 300),
     };
     let sched: Vec<u16> = tape[t.position().min(tape.len())..].to_vec();
-    run_history(&History { reqs, goaway_at }, style, &sched, credit, ctx)
+    let own_shutdown = if t.chance(1, 3) { Some((t.pick(n + 1), t.pick(4))) } else { None };
+    run_history(&History { reqs, goaway_at, own_shutdown }, style, &sched, credit, ctx)
 }
 
 fn run_direct(d: &Value, ctx: &mut Ctx) -> Verdict {
@@ -388,5 +414,6 @@ fn run_direct(d: &Value, ctx: &mut Ctx) -> Verdict {
         _ => Style::Random,
     };
     let sched: Vec<u16> = d["sched"].as_array().map(|a| a.iter().map(|x| x.as_u64().unwrap_or(0) as u16).collect()).unwrap_or_default();
-    run_history(&History { reqs, goaway_at }, style, &sched, d["credit"].as_i64().map(|c| if c < 0 { UNLIMITED } else { c as u64 }).unwrap_or(UNLIMITED), ctx)
+    let own_shutdown = h["own_shutdown"].as_array().map(|a| (a[0].as_u64().unwrap_or(0) as usize, a[1].as_u64().unwrap_or(0) as usize));
+    run_history(&History { reqs, goaway_at, own_shutdown }, style, &sched, d["credit"].as_i64().map(|c| if c < 0 { UNLIMITED } else { c as u64 }).unwrap_or(UNLIMITED), ctx)
 }
